@@ -4,7 +4,7 @@ Tie (mode C + D): the real `build_signal_namespace` / `SignalNamespace.get_name`
 Lean model (`LitexModel/Namer`) through `call`; names compared exactly.  The reserved-keyword table is
 regenerated from /repo into `LitexModel/Generated/Keywords.lean`.  Reproducibility across interpreters
 (PYTHONHASHSEED) is validated, not proved."""
-import os, re, json, glob, itertools, random, shutil, collections
+import os, re, json, glob, itertools, random, shutil, collections, subprocess
 
 import c02lib as L
 
@@ -63,6 +63,35 @@ def _oracle(ctx, kind, payload, pairs, bases, kwset, dis, exempt_known=True):
                     "in_suffix_region": region})
 
 
+CASE_TIMEOUT = 5.0
+MAX_HANGS = 2          # after that many hangs the remaining real-code jobs are skipped (each costs CASE_TIMEOUT)
+
+
+def too_many_hangs(ctx):
+    return getattr(ctx, "c02_hangs", 0) >= MAX_HANGS
+
+
+LIMITS = {"getname": 5.0, "namespace": 5.0, "convert": 20.0, "convert-platform": 20.0, "convert-soc": 90.0, "repro": 120.0}
+
+
+def guarded(ctx, dis, kind, payload, fn):
+    """Run the real code for one case; an exception or a hang becomes a disagreement that carries the concrete
+    input (returns None then)."""
+    import traceback
+    if too_many_hangs(ctx):
+        return None
+    try:
+        with L.time_limit(LIMITS.get(kind, CASE_TIMEOUT)):
+            return fn()
+    except L.Hang as e:
+        ctx.c02_hangs = getattr(ctx, "c02_hangs", 0) + 1
+        dis.append({"kind": "hang", "case": kind, "payload": payload, "what": str(e)})
+    except Exception as e:
+        dis.append({"kind": "exception", "case": kind, "payload": payload, "what": repr(e),
+                    "traceback": traceback.format_exc()[-1500:]})
+    return None
+
+
 def run_getname_cases(ctx, cases, name, exhaustive=False, cls=None, var=None):
     """`cls`/`var` given: the harness-side patched namespace class against `getNameFixed` (proposed fix)."""
     kwset = _kw(ctx)
@@ -72,7 +101,11 @@ def run_getname_cases(ctx, cases, name, exhaustive=False, cls=None, var=None):
     nontriv = 0
     with L.fast_signals():
         for c, o in zip(cases, outs):
-            real = L.run_real_getname(c, kwset, cls)
+            real = guarded(ctx, dis, "getname", c, lambda: L.run_real_getname(c, kwset, cls))
+            if real is None:
+                if len(dis) > 50 or too_many_hangs(ctx) or (dis and dis[-1].get("kind") == "hang"):
+                    break
+                continue
             model = L.unq_list(o)
             if model != real:
                 dis.append({"kind": "getname" if cls is None else "getname-proposed-fix", "payload": c, "real": real, "model": o})
@@ -141,7 +174,12 @@ def run_spec_cases(ctx, specs, name, exhaustive=False, mode="C"):
     nontriv = 0
     with L.fast_signals():
         for k, (sp, order) in enumerate(zip(specs, orders)):
-            dn, ans = L.run_real(sp, kwset)
+            res = guarded(ctx, dis, "namespace", sp, lambda: L.run_real(sp, kwset))
+            if res is None:
+                if len(dis) > 50 or too_many_hangs(ctx) or (dis and dis[-1].get("kind") == "hang"):
+                    break
+                continue
+            dn, ans = res
             md, ma = L.unq_list(outs[2 * k]), L.unq_list(outs[2 * k + 1])
             if md != [dn[i] for i in order]:
                 dis.append({"kind": "dict", "payload": sp, "order": order, "real": [dn[i] for i in order],
@@ -163,31 +201,59 @@ def run_spec_cases(ctx, specs, name, exhaustive=False, mode="C"):
 
 
 def run_convert_case(ctx, src, seed, regular_comb, dis):
+    payload = {"src": src, "seed": seed, "regular_comb": regular_comb}
+    return run_converted(ctx, "convert", payload, lambda: L.convert_design(src, seed, regular_comb), dis)
+
+
+def run_platform_case(ctx, seed, dis):
+    return run_converted(ctx, "convert-platform", {"platform_seed": seed}, lambda: L.convert_platform(seed), dis)
+
+
+def run_soc_case(ctx, k, dis):
+    return run_converted(ctx, "convert-soc", {"soc_variant": k}, lambda: L.convert_soc(k), dis)
+
+
+def produce_converted(kind, payload):
+    if kind == "convert":
+        return L.convert_design(payload["src"], payload["seed"], payload.get("regular_comb", True))
+    if kind == "convert-platform":
+        return L.convert_platform(payload["platform_seed"])
+    if kind == "convert-soc":
+        return L.convert_soc(payload["soc_variant"])
+    raise ValueError(kind)
+
+
+def run_converted(ctx, kind, payload, produce, dis):
     kwset = _kw(ctx)
-    r, log = L.convert_design(src, seed, regular_comb)
+    res = guarded(ctx, dis, kind, payload, produce)
+    if res is None:
+        return 0, False
+    r, log = res
     spec, keys = L.spec_from_convert(r, log)
     ans = [n for o, n in log]
     order = L.closure(spec)
     out = ctx.lean.call(L.lean_namespace_line(spec, order, variant(ctx)))
-    payload = {"src": src, "seed": seed, "regular_comb": regular_comb}
     if L.unq_list(out) != ans:
-        dis.append({"kind": "convert", "payload": payload, "real": ans, "model": out})
+        dis.append({"kind": kind, "payload": payload, "real": ans, "model": out})
     nsig = len(spec["sigs"])
     nd = r.ns.name_dict
     bases = []
     for (obj, n), i in zip(log, spec["reqs"]):
         bases.append(obj.name_override if obj.name_override is not None else nd[obj])
-    _oracle(ctx, "convert", payload, list(zip(keys, ans)), bases, kwset, dis)
+    _oracle(ctx, kind, payload, list(zip(keys, ans)), bases, kwset, dis)
+    for f in L.data_file_failures(r, log) + L.undeclared_namespace_failures(r, log) + \
+            [["pad identifier is not a declared port"] + x for x in L.pad_name_failures(r)]:
+        dis.append({"kind": "monitor", "case": "convert-text", "payload": dict(payload, producer=kind), "oracle": f})
     # declarations in the emitted text: no identifier declared twice (same region rule)
     decl = L.declared_identifiers(r.main_source)
     dup = [n for n, c in collections.Counter(decl).items() if c > 1]
     if dup:
         if not (_listed_open(ctx) and L.suffix_shaped_region(bases, kwset)):
-            dis.append({"kind": "monitor", "case": "convert-text", "payload": payload, "oracle": ["declared-twice", dup]})
+            dis.append({"kind": "monitor", "case": "convert-text", "payload": dict(payload, producer=kind), "oracle": ["declared-twice", dup]})
     for f in L.io_override_failures(r):
-        dis.append({"kind": "monitor", "case": "convert-text", "payload": payload, "oracle": ["io name_override"] + f})
+        dis.append({"kind": "monitor", "case": "convert-text", "payload": dict(payload, producer=kind), "oracle": ["io name_override"] + f})
     for f in L.emission_order_failures(r, log):
-        dis.append({"kind": "monitor", "case": "convert-text", "payload": payload, "oracle": f})
+        dis.append({"kind": "monitor", "case": "convert-text", "payload": dict(payload, producer=kind), "oracle": f})
     if L.legal_inputs(spec):
         ctx.cov.count("convert: hypothesis LegalSigs holds on the real back-traces")
     else:
@@ -201,10 +267,9 @@ def run_convert_case(ctx, src, seed, regular_comb, dis):
 # exhaustive small domains
 # ----------------------------------------------------------------------------------------------------------
 
-def exhaustive_getname_cases(nmax):
-    """All base assignments over {x, x_1, if, if_1} for up to nmax signals, all request orders (each signal
+def exhaustive_getname_cases(nmax, alpha=("x", "x_1", "if", "if_1")):
+    """All base assignments over the alphabet for up to nmax signals, all request orders (each signal
     requested once, then the first one again)."""
-    alpha = ["x", "x_1", "if", "if_1"]
     cases = []
     for n in range(1, nmax + 1):
         for bases in itertools.product(alpha, repeat=n):
@@ -243,8 +308,8 @@ def run_payload(ctx, kind, payload):
         dis += run_getname_cases(ctx, [payload], "corpus/getname")
     elif kind in ("dict", "namespace"):
         dis += run_spec_cases(ctx, [payload], "corpus/spec")
-    elif kind == "convert":
-        run_convert_case(ctx, payload["src"], payload["seed"], payload.get("regular_comb", True), dis)
+    elif kind in ("convert", "convert-platform", "convert-soc"):
+        run_converted(ctx, kind, payload, lambda: produce_converted(kind, payload), dis)
     return dis
 
 
@@ -272,6 +337,8 @@ def reproducibility_check(ctx, dis, nmods):
     """convert() twice in fresh interpreters with different PYTHONHASHSEED; text compared modulo date lines."""
     rng = random.Random(ctx.rng.randrange(1 << 30))
     jobs = []
+    if too_many_hangs(ctx):
+        return
     for k in range(nmods):
         src = L.gen_design_source(rng)
         seed = rng.randrange(1 << 30)
@@ -280,9 +347,15 @@ def reproducibility_check(ctx, dis, nmods):
     for src, seed, procs in jobs:
         outs = []
         for p in procs:
-            o, e = p.communicate(timeout=300)
+            try:
+                o, e = p.communicate(timeout=60)
+            except subprocess.TimeoutExpired:
+                p.kill()
+                o, e = p.communicate()
+                dis.append({"kind": "hang", "case": "convert", "payload": {"src": src, "seed": seed},
+                            "what": "convert() in a fresh interpreter did not finish within 60 s"})
             shutil.rmtree(p._c02_dir, ignore_errors=True)
-            outs.append(o if p.returncode == 0 else "ERROR rc=%d %s" % (p.returncode, e[-400:]))
+            outs.append(o if p.returncode == 0 else "ERROR rc=%s %s" % (p.returncode, e[-400:]))
         if outs[0].startswith("ERROR") or "module top" not in outs[0]:
             dis.append({"kind": "repro-machinery", "payload": {"src": src, "seed": seed}, "out": outs[0][-600:]})
         elif outs[0] != outs[1]:
@@ -329,7 +402,12 @@ def repro_modes(src, rng, n_inproc=2, n_shift=3, fresh=False):
         if t != base and fail is None:
             fail = {"mode": mode, "shift": shift, "diff": L.text_diff(base, t)}
     for mode, shift, p in procs:
-        o, e = p.communicate(timeout=300)
+        try:
+            o, e = p.communicate(timeout=60)
+        except subprocess.TimeoutExpired:
+            p.kill()
+            o, e = p.communicate()
+            e = "did not finish within 60 s " + (e or "")
         shutil.rmtree(p._c02_dir, ignore_errors=True)
         if p.returncode != 0:
             if fail is None:
@@ -345,9 +423,14 @@ def repro_ties_check(ctx, dis, ndesigns, nfresh, rng=None):
     rng = rng or random.Random(ctx.rng.randrange(1 << 30))
     ok = gens = 0
     for k in range(ndesigns):
+        if too_many_hangs(ctx) or len(dis) > 200:
+            break
         src = L.gen_repro_source(rng)
         fresh = k < nfresh
-        f = repro_modes(src, rng, fresh=fresh)
+        f = guarded(ctx, dis, "repro", {"repro_src": src}, lambda: repro_modes(src, rng, fresh=fresh) or {})
+        if f is None:
+            continue
+        f = f or None
         gens += 6 + (3 if fresh else 0)
         if f is None:
             ok += 1
@@ -365,7 +448,9 @@ def sensitivity_selftest(ctx, dis):
     """The comparison must flag a perturbed model answer."""
     c = {"kw": True, "bases": ["x", "x"], "ovr": [False, True], "reqs": [0, 1]}
     with L.fast_signals():
-        real = L.run_real_getname(c, _kw(ctx))
+        real = guarded(ctx, dis, "getname", c, lambda: L.run_real_getname(c, _kw(ctx)))
+    if real is None:
+        return
     model = L.unq_list(ctx.lean.call(L.lean_getname_line(c, variant(ctx))))
     if model != real or model[:1] + ["x_2"] == real or L.check_names([(0, "x"), (1, "x")]) == [] \
             or L.check_names([(0, "wire")]) == [] or L.check_names([(0, "a b")]) == [] \
@@ -424,6 +509,14 @@ def correspond(ctx):
     for n in ((1, 2, 3, 4) if quick else (1, 2, 3, 4, 5)):
         dis += run_spec_cases(ctx, exhaustive_dict_specs(n),
                               "name dict: all %d-signal multisets, back-traces len<=2 over {a,b}x{0,1}" % n, True)
+    # second exhaustive alphabet: chained / higher suffixes (several skipped candidates in a row)
+    dis += run_getname_cases(ctx, exhaustive_getname_cases(4 if quick else 5, ["x", "x_1", "x_2", "x_1_1"]),
+                             "get_name: all bases over {x,x_1,x_2,x_1_1}, n<=%d, all request orders" % (4 if quick else 5), True)
+    # corners named by the quantifier: 10-30 signals on one base (two-digit suffixes), look-alike names
+    dis += run_getname_cases(ctx, [L.gen_getname_corner(rng) for _ in range(600 if quick else 6000)],
+                             "get_name corners: 10-30 signals per base, two-digit / chained / leading-zero look-alikes")
+    dis += run_spec_cases(ctx, [L.gen_synthetic_corner(rng) for _ in range(600 if quick else 6000)],
+                          "namespace corners: >=11 numbered siblings, >=11 identical names, sparse numbers, related chains of 3")
     # random
     dis += run_getname_cases(ctx, [L.gen_getname_case(rng) for _ in range(8000 if quick else 60000)],
                              "get_name: random bases (suffix-shaped, keywords), shuffled/repeated requests")
@@ -465,7 +558,23 @@ def correspond(ctx):
         ncases += 1
         nreq += n
         nt += 1 if t else 0
-    ctx.cov.add_cases("verilog.convert(): random designs with memories/instances/IOs, recorded get_name order", ncases, nt)
+    ctx.cov.add_cases("verilog.convert(): random designs with memories/instances/tristates/MultiRegs/IOs, recorded get_name order", ncases, nt)
+    # the user path: platform.get_verilog() with IOs from the constraint manager, and whole SoCs
+    np_ = nt_ = 0
+    for _ in range(60 if quick else 800):
+        n, t = run_platform_case(ctx, rng.randrange(1 << 30), dis)
+        np_ += 1
+        nt_ += 1 if t else 0
+        nreq += n
+    ctx.cov.add_cases("platform.get_verilog(): pads requested from the constraint manager (Generic/SimPlatform), internal "
+                      "signals named like pads", np_, nt_)
+    ns_ = 0
+    for k in range(len(L.SOC_VARIANTS)):
+        n, t = run_soc_case(ctx, k, dis)
+        ns_ += 1
+        nreq += n
+    ctx.cov.add_cases("SoCMini through SimPlatform.get_verilog() (timer/uart/ctrl, csr 8/32 bit, wishbone/axi-lite)", ns_, ns_)
+    ctx.log("platform/SoC glue: %d platform designs, %d SoCs" % (np_, ns_))
     if ctx.cov.samples is not None:
         ctx.cov.samples.append({"convert_cases": ncases, "get_name_requests_compared": nreq})
     ctx.log("convert(): %d designs, %d get_name requests compared" % (ncases, nreq))
@@ -612,10 +721,15 @@ def probe_keyword_blanks():
 
 def probes(ctx):
     out = []
-    f, what = probe_keyword_blanks()
-    out.append((FINDING_BLANKS, f, what))
-    f, what = probe_suffix_collision()
-    out.append((FINDING_SUFFIX, f, what))
+    for fid, fn in ((FINDING_BLANKS, probe_keyword_blanks), (FINDING_SUFFIX, probe_suffix_collision)):
+        try:
+            with L.time_limit(CASE_TIMEOUT * 2):
+                f, what = fn()
+        except L.Hang as e:
+            f, what = True, "probe did not finish: %s" % e
+        except Exception as e:
+            f, what = True, "probe raised %r" % (e,)
+        out.append((fid, f, what))
     return out
 
 
@@ -625,6 +739,15 @@ def probes(ctx):
 
 def _real_failure(ctx, kind, payload, respect_known=True):
     """Run one case on the real code only and apply the oracles.  Returns a description or None."""
+    try:
+        with L.time_limit(LIMITS.get(kind, CASE_TIMEOUT)):
+            return _real_failure_inner(ctx, kind, payload, respect_known)
+    except L.Hang as e:
+        L.fast_signals().__exit__()
+        return {"case": "hang", "producer": kind, "input": payload, "oracle_failures": [["hang", str(e)]]}
+
+
+def _real_failure_inner(ctx, kind, payload, respect_known=True):
     kwset = _kw(ctx)
     listed = respect_known and _listed_open(ctx)
     if kind == "getname":
@@ -640,8 +763,8 @@ def _real_failure(ctx, kind, payload, respect_known=True):
         pairs = list(zip(payload["reqs"], real))
         bases = [payload["extra"][i - nsig] if i >= nsig else (payload["sigs"][i]["ovr"] or dn[i]) for i in payload["reqs"]]
         kws = kwset if payload.get("kw", True) else set()
-    elif kind == "convert":
-        r, log = L.convert_design(payload["src"], payload["seed"], payload.get("regular_comb", True))
+    elif kind in ("convert", "convert-platform", "convert-soc"):
+        r, log = produce_converted(kind, payload)
         spec, keys = L.spec_from_convert(r, log)
         real = [n for o, n in log]
         pairs = list(zip(keys, real))
@@ -651,7 +774,7 @@ def _real_failure(ctx, kind, payload, respect_known=True):
     else:
         return None
     fails = L.check_names(pairs)
-    if kind != "convert" and not payload.get("kw", True):
+    if not kind.startswith("convert") and not payload.get("kw", True):
         fails = [f for f in fails if f[0] != "reserved"]      # no keyword set was handed to the namespace
     region = L.suffix_shaped_region(bases, kws)
     fails = [f for f in fails if not (f[0] == "unique" and region and listed)]
@@ -668,6 +791,11 @@ def search(ctx, disagreements, proof_info):
     for d in disagreements:
         if d.get("kind") == "monitor" and d.get("case") in ("keywords", "reproducibility", "convert-text"):
             return {"case": d["case"], "input": d.get("payload"), "oracle_failures": [d.get("oracle")]}
+    # 0a. the real code raised or hung on a concrete valid input
+    for d in disagreements:
+        if d.get("kind") in ("exception", "hang"):
+            return {"case": d["kind"], "producer": d.get("case"), "input": d.get("payload"),
+                    "oracle_failures": [[d["kind"], d.get("what")]], "traceback": d.get("traceback")}
     # 0b. naming depends on iteration order?  tie designs, more of them than in the correspondence run
     if disagreements:
         tmp = []
@@ -762,6 +890,13 @@ def _shrink_real(kind, p, still):
     return cur
 
 
+def ctx_quiet(ctx):
+    if ctx.lean is None:
+        from leanproc import LeanDriver
+        ctx.lean = LeanDriver("C02")
+    return ctx
+
+
 def replay(ctx, payload):
     """Re-execute a replay file on the real code (oracles only)."""
     f = payload.get("failing_input")
@@ -798,7 +933,27 @@ def replay(ctx, payload):
         bad = dup or L.io_override_failures(r) or L.emission_order_failures(r, log)
         print("replay: text monitors:", bad if bad else "pass")
         return 1 if bad else 0
-    if f.get("case") in ("getname", "dict", "namespace", "convert"):
+    if f.get("case") in ("exception", "hang"):
+        tmp = []
+        kind = f.get("producer")
+        if kind == "getname":
+            with L.fast_signals():
+                guarded(ctx, tmp, kind, f["input"], lambda: L.run_real_getname(f["input"], _kw(ctx)))
+        elif kind == "namespace":
+            with L.fast_signals():
+                guarded(ctx, tmp, kind, f["input"], lambda: L.run_real(f["input"], _kw(ctx)))
+        else:
+            guarded(ctx, tmp, kind, f["input"], lambda: produce_converted(kind, f["input"]))
+        print("replay:", (tmp[0]["kind"] + ": " + str(tmp[0]["what"]) + " -> STILL FAILS") if tmp else "real code returns -> passes")
+        return 1 if tmp else 0
+    if f.get("case") == "convert-text" and f.get("input", {}).get("producer"):
+        p = f["input"]
+        tmp = []
+        run_converted(ctx_quiet(ctx), p["producer"], p, lambda: produce_converted(p["producer"], p), tmp)
+        tmp = [d for d in tmp if d.get("kind") == "monitor"]
+        print("replay: text monitors:", json.dumps(tmp[0]["oracle"])[:800] if tmp else "pass")
+        return 1 if tmp else 0
+    if f.get("case") in ("getname", "dict", "namespace", "convert", "convert-platform", "convert-soc"):
         r = _real_failure(ctx, f["case"], f["input"], respect_known=False)
         print("replay:", json.dumps(r, default=str)[:2000] if r else "passes")
         return 1 if r else 0
